@@ -102,7 +102,11 @@ where
         // Track errors to as a factor of unit in last-precision.
         let mut errors: u32 = 0;
         if truncated {
-            errors += u64::error_halfscale();
+            // The digits that did not fit are worth up to one unit of the
+            // mantissa as given, which is `1 << leading_zeros` units of the
+            // normalized mantissa. A truncated mantissa is at least
+            // `u64::MAX / 10`, so the shift is at most 3.
+            errors += u64::error_scale() << fp.mant.leading_zeros().min(3);
         }
 
         // Multiply by the small power.
